@@ -23,7 +23,8 @@ Al(c) == IF Has(c, "al") THEN c.al ELSE 0
 \* its    : iterator id |-> [kind, k (items yielded so far), dead]
 TrkInit == [loaded |-> "none", its |-> <<>>,
             hasb |-> FALSE, bld |-> <<>>, built |-> <<>>,            \* boot-information builder: supplied tags, built bytes
-            hashb |-> FALSE, hbld |-> <<>>, harch |-> 0, hbuilt |-> <<>>]
+            hashb |-> FALSE, hbld |-> <<>>, harch |-> 0, hbuilt |-> <<>>,
+            img |-> "case"]                                          \* which bytes are under test: the case image or a built structure
 HasIt(trk, id) == id \in DOMAIN trk.its
 ItOf(trk, id) == trk.its[id]
 SetIt(trk, id, v) == [trk EXCEPT !.its = (id :> v) @@ trk.its]
@@ -32,7 +33,9 @@ SetIt(trk, id, v) == [trk EXCEPT !.its = (id :> v) @@ trk.its]
 SuppliedImg(bytes, isHdr) ==
   LET sz == IF Len(bytes) >= 8 THEN U32At(bytes, 4) ELSE 0 IN
   IF sz >= 8 /\ sz <= Len(bytes) THEN SubSeq(bytes, 1, sz) ELSE bytes
-Advance(c, trk, call, o) ==
+Advance(c0, trk, call, o) ==
+  LET c == IF trk.img = "info" THEN [c0 EXCEPT !.mem = trk.built]
+           ELSE IF trk.img = "header" THEN [c0 EXCEPT !.mem = trk.hbuilt] ELSE c0 IN
   CASE call.op = "load" -> [trk EXCEPT !.loaded = IF o.k = "ok" THEN "bi" ELSE "none"]
     [] call.op = "b_new" -> [trk EXCEPT !.hasb = TRUE, !.bld = <<>>, !.built = <<>>]
     [] call.op = "hb_new" -> [trk EXCEPT !.hashb = TRUE, !.hbld = <<>>, !.hbuilt = <<>>, !.harch = call.arch]
@@ -42,6 +45,8 @@ Advance(c, trk, call, o) ==
     [] call.op = "hb_set" ->
          IF o.k = "ok" /\ trk.hashb THEN [trk EXCEPT !.hbld = Append(trk.hbld, [slot |-> call.slot, img |-> SuppliedImg(o.v.bytes, TRUE)])]
          ELSE IF o.k \in {"panic", "crash", "hang"} THEN [trk EXCEPT !.hashb = FALSE] ELSE trk
+    [] call.op = "use_built" ->
+         IF o.k = "unit" THEN [trk EXCEPT !.img = call.which, !.loaded = "none", !.its = <<>>] ELSE trk
     [] call.op = "b_build" -> [trk EXCEPT !.hasb = FALSE, !.built = IF o.k = "ok" THEN o.v.bytes ELSE <<>>]
     [] call.op = "hb_build" -> [trk EXCEPT !.hashb = FALSE, !.hbuilt = IF o.k = "ok" THEN o.v.bytes ELSE <<>>]
     [] call.op = "hload" -> [trk EXCEPT !.loaded = IF o.k = "ok" THEN "hdr" ELSE "none"]
@@ -415,7 +420,10 @@ AcceptCtor(call, o) ==
                                                           THEN SubSeq(call.text, 1, FirstNul(call.text) - 1) ELSE call.text])
 C07_Accept(c, trk, call, o) ==
   IF call.op = "construct" \/ (call.op = "b_set" /\ trk.hasb) \/ (call.op = "hb_set" /\ trk.hashb)
-  THEN AcceptCtor(call, o) ELSE TRUE
+  THEN AcceptCtor(call, o)
+  \* read-back: accessors applied to a structure built from constructed tags decode what was stored
+  ELSE IF trk.img = "info" /\ IsInfoRead(call) THEN C04_Accept(c, trk, call, o)
+  ELSE TRUE
 \* C17 (build side): string tags store the text and exactly one terminating NUL
 C17_Build(c, trk, call, o) ==
   IF call.op \in {"construct", "b_set"} /\ CtorKind(call) \in {"cmdline", "bootloader", "module"}
@@ -440,7 +448,9 @@ C16_Accept(c, trk, call, o) ==
                                     /\ HeapObjOk(o.v.clone, total))
     [] OTHER -> TRUE
 C06_Accept(c, trk, call, o) ==
-  CASE call.op = "b_build" -> IF ~trk.hasb THEN o.k = "skipped" ELSE o.k = "ok" /\ AcceptInfoBuild(trk.bld, o.v)
+  CASE call.op = "use_built" ->
+         IF (call.which = "info" /\ trk.built = <<>>) \/ (call.which = "header" /\ trk.hbuilt = <<>>) THEN o.k = "skipped" ELSE o.k = "unit"
+    [] call.op = "b_build" -> IF ~trk.hasb THEN o.k = "skipped" ELSE o.k = "ok" /\ AcceptInfoBuild(trk.bld, o.v)
     [] call.op = "b_load" -> IF trk.built = <<>> THEN TRUE ELSE o.k = "ok" /\ o.v.total = Len(trk.built)
     [] OTHER -> TRUE
 C12_Accept(c, trk, call, o) ==
@@ -478,7 +488,7 @@ C01_Accept(c, trk, call, o) ==
 \* ---- reference design of the session (constructive; drives the MC_* models) -----------
 \* ds: loaded, its: id |-> [kind, cur, end, dead]
 DsInit == [loaded |-> "none", its |-> <<>>, hasb |-> FALSE, bld |-> <<>>, built |-> <<>>,
-           hashb |-> FALSE, hbld |-> <<>>, harch |-> 0, hbuilt |-> <<>>]
+           hashb |-> FALSE, hbld |-> <<>>, harch |-> 0, hbuilt |-> <<>>, img |-> "case"]
 \* a heap object as the reference design lays it out: one allocation of the rounded size, released once
 HeapOutcome(E) ==
   LET sv == RoundUp8(Len(E)) IN
@@ -580,8 +590,13 @@ DesignCustomGet(c, call) ==
             IF r.k = "panic" THEN Panic
             ELSE Some([at |-> r.v.at, sv |-> r.v.sv, tat |-> f.it.at + RoundUp(call.fixed, call.ea), n |-> r.v.n, tlen |-> r.v.n * call.es])
 
-DesignStep(c, ds, call) ==
-  CASE call.op = "ref_from_slice" ->
+DesignStep(c0, ds, call) ==
+  LET c == IF ds.img = "info" THEN [c0 EXCEPT !.mem = ds.built]
+           ELSE IF ds.img = "header" THEN [c0 EXCEPT !.mem = ds.hbuilt] ELSE c0 IN
+  CASE call.op = "use_built" ->
+         IF (call.which = "info" /\ ds.built = <<>>) \/ (call.which = "header" /\ ds.hbuilt = <<>>) THEN [o |-> Skipped, ds |-> ds]
+         ELSE [o |-> Unit, ds |-> [ds EXCEPT !.img = call.which, !.loaded = "none", !.its = <<>>]]
+    [] call.op = "ref_from_slice" ->
          LET H == HeaderByName(call.h) IN
          [o |-> DesignRefFromSlice(H, Len(c.mem), Al(c), Declared(c, H)), ds |-> ds]
     [] call.op = "bytes_ref" ->
@@ -707,7 +722,12 @@ DesignStep(c, ds, call) ==
     [] OTHER -> [o |-> [k |-> "unsupported"], ds |-> ds]
 
 \* ---- dispatch -------------------------------------------------------------------------
-AcceptP(p, c, trk, call, o) ==
+\* the image under test: after use_built, the bytes the builder produced (as observed)
+CEff(c, trk) ==
+  IF trk.img = "info" THEN [c EXCEPT !.mem = trk.built]
+  ELSE IF trk.img = "header" THEN [c EXCEPT !.mem = trk.hbuilt] ELSE c
+AcceptP(p, c0, trk, call, o) ==
+  LET c == CEff(c0, trk) IN
   CASE p = "C01" -> C01_Accept(c, trk, call, o)
     [] p = "C02" -> C02_Accept(c, trk, call, o)
     [] p = "C03" -> C03_Accept(c, trk, call, o) /\ C03_InfoRead(c, trk, call, o)
